@@ -8,6 +8,7 @@ def fmtRat (r : Rat) : String := if r.den = 1 then toString r.num else s!"{r.num
 structure ConsState where
   c : Circ OState CState
   all : All
+  partialCfg : Bool := false     -- the stored config has no TimeKeeper (diagnostics then use the wall clock)
 
 def msTrunc (x : Int) : Int := tdiv x 1000000
 
@@ -42,14 +43,16 @@ partial def runConsOps (n : Nat) (w : Int) (maxHealthy : Int) (st : ConsState) (
       | some op =>
         let (c', obs, res) := execute openerI closerI st.c op.ctx op.run op.fb
         let all' := obs.emits.foldl All.onEmit st.all
-        runConsOps n w maxHealthy { c := c', all := all' } hist' realOpen' rest
+        runConsOps n w maxHealthy { st with c := c', all := all' } hist' realOpen' rest
           (acc.push (s!"res={res.fmt} {fmtEv obs.emits} open={fmtBool (isOpenEff c')}" ++ "\t-"))
     | some "open" | some "close" =>
       let (c', obs) := if toks.head? == some "open" then manualOpen openerI closerI st.c else manualClose openerI closerI st.c
       runConsOps n w maxHealthy { st with c := c' } hist' realOpen' rest (acc.push (s!"{fmtEv obs.emits} open={fmtBool (isOpenEff c')}" ++ "\t-"))
     | some "setcfg" =>
       let c' := setConfig st.c (parseCfg kvs st.c.cfg)
-      runConsOps n w maxHealthy { st with c := c' } hist realOpen' rest (acc.push (s!"open={fmtBool (isOpenEff c')}" ++ "\t-"))
+      runConsOps n w maxHealthy { st with c := c', partialCfg := kvBool kvs "partial" false } hist realOpen' rest (acc.push (s!"open={fmtBool (isOpenEff c')}" ++ "\t-"))
+    | some "var" =>
+      runConsOps n w maxHealthy st hist realOpen' rest (acc.push (s!"open={fmtBool (isOpenEff st.c)}" ++ "\t-"))
     | some "tick" =>
       let c' := { st.c with clock := st.c.clock + (toks.getD 1 "0").toInt?.getD 0 }
       runConsOps n w maxHealthy { st with c := c' } hist realOpen' rest (acc.push (s!"open={fmtBool (isOpenEff c')}" ++ "\t-"))
@@ -70,6 +73,7 @@ partial def runConsOps (n : Nat) (w : Int) (maxHealthy : Int) (st : ConsState) (
       let p := SpecC20.sloPass maxHealthy hist; let f := SpecC20.sloFail maxHealthy hist
       runConsOps n w maxHealthy st hist realOpen rest (acc.push (m ++ "\t" ++ s!"pass={p} fail={f} cbpass={p} cbfail={f}"))
     | some "stream" =>
+      if st.partialCfg then runConsOps n w maxHealthy st hist realOpen rest (acc.push "stream-ok\t-") else
       -- the record reads the (frozen) clock once and every counter at that time
       let now := st.c.clock
       let (r', sums) := st.all.run.sums now
